@@ -26,6 +26,12 @@
 (*        over the base tuple, over the tuple with `mut` changed (= the    *)
 (*        data the message carries now) or over the tuple with another     *)
 (*        field changed.                                                   *)
+(*        `mut` may also be "idlen": the byte length of one identity       *)
+(*        preimage of the message was changed (no signature over such a    *)
+(*        list exists).                                                    *)
+(*  History = TRUE multiplies every domain by the announcement histories   *)
+(*        of the eon's keyper set (Anns): the classes are then relative to *)
+(*        the LAST announced set.                                          *)
 (*  sample  random sampling of the base domain for larger n (SampleSpec),  *)
 (*        drawn by TLC itself (Randomization, seeded by -seed): shape      *)
 (*        "free" draws both lists uniformly, shape "near" draws a          *)
@@ -38,6 +44,7 @@ CONSTANTS
     Flavours,   \* subset of {"gnosis", "service"}
     NSet,       \* keyper set sizes
     TSel,       \* thresholds to include (intersected with 0..n+1)
+    History,    \* TRUE: every case under every announcement history of Anns; FALSE: <<"S">> only
     Domain,     \* "base" | "mut" (Spec); the sample uses SampleSpec
     SampleNum,  \* number of draws of SampleSpec
     Emit        \* print the cases?
@@ -54,21 +61,40 @@ Classes(f, n) ==
     (IF n >= 2 THEN {Class("member", "")} ELSE {}) \cup
     {Class("chg", x) : x \in SignedFields(f)}
 
+(* the signature token of the key that holds index idx of the eon's set (the last announced):
+   set S: member idx; set X = <<outsider, member 0, ..>>: index 0 is the outsider (token n) *)
+HolderTok(idx, n, ann) ==
+    IF ann[Len(ann)] = "S" THEN idx ELSE IF idx = 0 THEN n ELSE idx - 1
+
+(* classes are relative to the holder of the listed index: *)
 Listed(signers, n, i) == IF i <= Len(signers) /\ signers[i] < n THEN signers[i] ELSE (i - 1) % n
 
-Expand(cl, signers, n, i) ==
-    LET me == Listed(signers, n, i) IN
+Expand(cl, signers, n, i, ann) ==
+    LET idx == Listed(signers, n, i)
+        me == HolderTok(idx, n, ann)
+        other == HolderTok((idx + 1) % n, n, ann)
+        \* a key that holds no index of the eon's set: the outsider for S, member n-1 for X
+        out == IF ann[Len(ann)] = "S" THEN n ELSE n - 1
+    IN
     CASE cl.cl = "listed"   -> Sig("ok", me, "")
-      [] cl.cl = "member"   -> Sig("ok", (me + 1) % n, "")
-      [] cl.cl = "outsider" -> Sig("ok", n, "")
+      [] cl.cl = "member"   -> Sig("ok", other, "")
+      [] cl.cl = "outsider" -> Sig("ok", out, "")
       [] cl.cl = "chg"      -> Sig("ok", me, cl.x)
       [] cl.cl = "garbage"  -> Sig("garbage", n, "")
       [] cl.cl = "tampered" -> Sig("tampered", me, "")
 
-ExpandAll(q, signers, n) == [i \in DOMAIN q |-> Expand(q[i], signers, n, i)]
+ExpandAll(q, signers, n, ann) == [i \in DOMAIN q |-> Expand(q[i], signers, n, i, ann)]
 
-Seed(f, n, t, signers, mut) ==
-    [f |-> f, n |-> n, t |-> t, signers |-> signers, sigs |-> <<>>, mut |-> mut]
+(* announcement histories of the eon's keyper set (see SigRule): announced once; announced twice
+   (initial sync and subscription overlap); replaced by a re-announcement, both ways round *)
+Anns == IF History THEN {<<"S">>, <<"S", "S">>, <<"X", "S">>, <<"S", "X">>} ELSE {<<"S">>}
+
+Seed(f, n, t, signers, mut, ann) ==
+    [f |-> f, n |-> n, t |-> t, signers |-> signers, sigs |-> <<>>, mut |-> mut, ann |-> ann]
+
+(* what can change in a message after signing: a signed field, or the byte length of one
+   identity preimage *)
+MutKinds(f) == SignedFields(f) \cup {"idlen"}
 
 GoodLists(n, t) == {s \in [1..t -> 0..(n - 1)] : StrictlyIncreasing(s)}
 
@@ -77,17 +103,17 @@ GoodLists(n, t) == {s \in [1..t -> 0..(n - 1)] : StrictlyIncreasing(s)}
    as bounded quantifiers inside Init/Next instead of as named sets. *)
 IsBaseSeed(s) ==
     \E n \in NSet : \E t \in Thresholds(n) : \E f \in Flavours : \E m \in 0..(n + 1) :
-        \E sg \in [1..m -> 0..n] : s = Seed(f, n, t, sg, "")
+        \E sg \in [1..m -> 0..n] : \E a \in Anns : s = Seed(f, n, t, sg, "", a)
 IsMutSeed(s) ==
-    \E n \in NSet : \E t \in Thresholds(n) \cap (0..n) : \E f \in Flavours : \E mu \in SignedFields(f) :
-        \E sg \in GoodLists(n, t) : s = Seed(f, n, t, sg, mu)
+    \E n \in NSet : \E t \in Thresholds(n) \cap (0..n) : \E f \in Flavours : \E mu \in MutKinds(f) :
+        \E sg \in GoodLists(n, t) : \E a \in Anns : s = Seed(f, n, t, sg, mu, a)
 
 IsBaseCompletion(s, s2) ==
     \E m \in 0..(s.n + 1) : \E q \in [1..m -> Classes(s.f, s.n)] :
-        s2 = [s EXCEPT !.sigs = ExpandAll(q, s.signers, s.n)]
+        s2 = [s EXCEPT !.sigs = ExpandAll(q, s.signers, s.n, s.ann)]
 IsMutCompletion(s, s2) ==
     \E o \in [1..s.t -> {""} \cup SignedFields(s.f)] :
-        s2 = [s EXCEPT !.sigs = [i \in 1..s.t |-> Sig("ok", s.signers[i], o[i])]]
+        s2 = [s EXCEPT !.sigs = [i \in 1..s.t |-> Sig("ok", HolderTok(s.signers[i], s.n, s.ann), o[i])]]
 
 ----------------------------------------------------------------------------
 (* exhaustive enumeration: one seed per (flavour, n, t, signer list[, mut]), one step to every
@@ -123,7 +149,8 @@ SampleInit ==
        \E sg \in Pick(IF near THEN GoodLists(n, t) ELSE [1..m -> 0..n]) :
        \E len \in Pick(IF near THEN {t - 1, t, t + 1} \cap (0..(n + 1)) ELSE 0..(n + 1)) :
        \E q \in Pick(IF near THEN NearClassSeqs(f, n, len) ELSE [1..len -> Classes(f, n)]) :
-           c = [Seed(f, n, t, sg, "") EXCEPT !.sigs = ExpandAll(q, sg, n)]
+       \E a \in Pick(Anns) :
+           c = [Seed(f, n, t, sg, "", a) EXCEPT !.sigs = ExpandAll(q, sg, n, a)]
 
 SampleSpec == SampleInit /\ [][Next]_vars
 
